@@ -164,3 +164,187 @@ fn c09_convert_twin_reach() {
     std::mem::forget(from);
     std::mem::forget(conv);
 }
+
+// ---------------------------------------------------------------------------------------------
+// fit_fraction: re-expressing a quantity as a fraction in one of the target system's designated units keeps
+// the amount: the new value is the approximation of convert(value -> new unit) and, for a range, the end is
+// convert(end -> new unit) (approximated if possible, plain otherwise).  HashMap-backed configuration lookups
+// are stubbed (hashbrown's SIMD probing makes kani-compiler 0.68 abort), the kernels are markers.
+
+static mut CFG_ENABLED: [bool; 3] = [false; 3];
+static mut APPROX_LOG: [(u64, bool, u32); 6] = [(0, false, 0); 6];
+static mut APPROX_CALLS: usize = 0;
+
+fn cfg_of(id: usize) -> FractionsConfig {
+    FractionsConfig { enabled: unsafe { CFG_ENABLED[id % 3] }, accuracy: 0.05, max_denominator: 4, max_whole: 10 }
+}
+fn fractions_config_stub(_f: &Fractions, _system: Option<System>, _quantity: PhysicalQuantity, unit_id: usize) -> FractionsConfig {
+    cfg_of(unit_id)
+}
+fn converter_fractions_config_stub(c: &Converter, unit: &Unit) -> FractionsConfig {
+    // identify the unit by its (distinct) ratio
+    let mut i = 0;
+    while i < c.all_units.len() {
+        if c.all_units[i].ratio.to_bits() == unit.ratio.to_bits() {
+            return cfg_of(i);
+        }
+        i += 1;
+    }
+    cfg_of(0)
+}
+/// Number::new_approx marker: nondeterministically declines or returns a fraction tagged with the call index;
+/// every call is logged (argument bits, outcome, tag)
+fn approx_stub(value: f64, _accuracy: f32, _max_den: u8, _max_whole: u32) -> Option<Number> {
+    let k = unsafe { APPROX_CALLS };
+    let accept: bool = kani::any();
+    let den: u32 = kani::any();
+    kani::assume(den >= 1 && den <= 4);
+    unsafe {
+        if k < 6 {
+            APPROX_LOG[k] = (value.to_bits(), accept, den);
+        }
+        APPROX_CALLS = k + 1;
+    }
+    if accept {
+        Some(Number::Fraction { whole: k as u32, num: 1, den, err: 0.0 })
+    } else {
+        None
+    }
+}
+
+fn try_fraction_stub(_q: &mut Quantity<Value>, _converter: &Converter) -> bool {
+    false
+}
+
+fn sym_unit(sym: &'static str, ratio: f64, system: System) -> Arc<Unit> {
+    Arc::new(Unit {
+        names: Vec::new(),
+        symbols: vec![Arc::from(sym)],
+        aliases: Vec::new(),
+        ratio,
+        difference: 0.0,
+        physical_quantity: PhysicalQuantity::Volume,
+        system: Some(system),
+    })
+}
+
+fn fit_fraction_case(is_range: bool) {
+    let mut conv = Converter::empty();
+    let (r0, r1, r2) = (any_ratio(), any_ratio(), any_ratio());
+    kani::assume(r0.to_bits() != r1.to_bits() && r1.to_bits() != r2.to_bits() && r0.to_bits() != r2.to_bits());
+    conv.all_units = vec![sym_unit("a", r0, System::Imperial), sym_unit("b", r1, System::Imperial), sym_unit("c", r2, System::Imperial)];
+    conv.best[PhysicalQuantity::Volume] = BestConversionsStore::BySystem {
+        metric: BestConversions(Vec::new()),
+        imperial: BestConversions(vec![(any_th(), 1), (any_th(), 2)]),
+    };
+    unsafe {
+        CFG_ENABLED = [kani::any(), kani::any(), kani::any()];
+    }
+    let s: f64 = kani::any();
+    let e: f64 = kani::any();
+    kani::assume(s.is_finite() && e.is_finite());
+    let value = if is_range {
+        Value::Range { start: Number::Regular(s), end: Number::Regular(e) }
+    } else {
+        Value::Number(Number::Regular(s))
+    };
+    let from = conv.all_units[0].clone();
+    let mut q = Quantity::new(value, Some(String::from("a")));
+    let r = q.fit_fraction(&from, Some(System::Imperial), &conv);
+    let calls = unsafe { APPROX_CALLS };
+    match r {
+        Ok(true) => {
+            // the new unit is one of the designated imperial units
+            let to_b = q.unit() == Some("b");
+            let to_c = q.unit() == Some("c");
+            assert!(to_b || to_c);
+            let new_id = if to_b { 1 } else { 2 };
+            assert!(unsafe { CFG_ENABLED[new_id] });
+            let new_unit = conv.all_units[new_id].clone();
+            let want_start = conv_marker(s, &from, &new_unit).to_bits();
+            // the start (or the number) is an accepted approximation of the converted value
+            let (start_num, end_num) = match q.value() {
+                Value::Number(n) => (*n, None),
+                Value::Range { start, end } => (*start, Some(*end)),
+                Value::Text(_) => {
+                    assert!(false);
+                    return;
+                }
+            };
+            assert!(end_num.is_some() == is_range);
+            match start_num {
+                Number::Fraction { whole, den, .. } => {
+                    let k = whole as usize;
+                    assert!(k < calls && k < 6);
+                    let (arg, accepted, d) = unsafe { APPROX_LOG[k] };
+                    assert!(accepted && d == den && arg == want_start);
+                }
+                Number::Regular(_) => assert!(false),
+            }
+            if let Some(end) = end_num {
+                let want_end = conv_marker(e, &from, &new_unit).to_bits();
+                match end {
+                    Number::Fraction { whole, den, .. } => {
+                        let k = whole as usize;
+                        assert!(k < calls && k < 6);
+                        let (arg, accepted, d) = unsafe { APPROX_LOG[k] };
+                        assert!(accepted && d == den && arg == want_end);
+                    }
+                    // not expressible as a fraction: the converted end as a plain number
+                    Number::Regular(x) => assert!(x.to_bits() == want_end),
+                }
+            }
+            std::mem::forget(new_unit);
+        }
+        Ok(false) => {
+            // nothing fitted: the quantity is untouched
+            assert!(q.unit() == Some("a"));
+            match q.value() {
+                Value::Number(Number::Regular(x)) => assert!(!is_range && x.to_bits() == s.to_bits()),
+                Value::Range { start: Number::Regular(x), end: Number::Regular(y) } => {
+                    assert!(is_range && x.to_bits() == s.to_bits() && y.to_bits() == e.to_bits())
+                }
+                _ => assert!(false),
+            }
+        }
+        Err(_) => assert!(false),
+    }
+    kani::cover!(matches!(r, Ok(true)));
+    kani::cover!(matches!(r, Ok(false)));
+    std::mem::forget(r);
+    std::mem::forget(q);
+    std::mem::forget(from);
+    std::mem::forget(conv);
+}
+
+#[kani::proof]
+#[kani::unwind(8)]
+#[kani::stub(std::hash::RandomState::new, rs_stub)]
+#[kani::stub(alloc::fmt::format, fmt_stub)]
+#[kani::stub(crate::convert::convert_f64, conv_marker)]
+#[kani::stub(Fractions::config, fractions_config_stub)]
+#[kani::stub(Converter::fractions_config, converter_fractions_config_stub)]
+#[kani::stub(Number::new_approx, approx_stub)]
+#[kani::stub(Quantity::<Value>::try_fraction, try_fraction_stub)]
+fn c09_fit_fraction_number() {
+    fit_fraction_case(false)
+}
+
+#[kani::proof]
+#[kani::unwind(8)]
+#[kani::stub(std::hash::RandomState::new, rs_stub)]
+#[kani::stub(alloc::fmt::format, fmt_stub)]
+#[kani::stub(crate::convert::convert_f64, conv_marker)]
+#[kani::stub(Fractions::config, fractions_config_stub)]
+#[kani::stub(Converter::fractions_config, converter_fractions_config_stub)]
+#[kani::stub(Number::new_approx, approx_stub)]
+#[kani::stub(Quantity::<Value>::try_fraction, try_fraction_stub)]
+fn c09_fit_fraction_range() {
+    fit_fraction_case(true)
+}
+
+// NOTE: harnesses through ScaledQuantity::convert / fit / try_fraction / Converter::fractions_config are not
+// possible with kani-compiler 0.68: every function carrying #[tracing::instrument] makes it abort with an
+// internal error (intrinsics.rs:243) as soon as it is reachable.  Those four functions are instrumented;
+// fit_fraction (above) and Converter::convert / convert_to_best are not.  The failure cases of
+// ScaledQuantity::convert (unitless / unknown unit / text => error, quantity unchanged) are therefore not decided.
